@@ -175,6 +175,17 @@ func runCheck(args []string) {
 	loadJSON(filepath.Join(cfgDir, "known_findings.json"), &P.findings)
 
 	// select functions
+	// exploratory: an obligation under a configuration outside the range the quick tier runs (only the thorough tier sees it)
+	exploratory := func(o *Obligation) bool {
+		if *tier != "thorough" || o.fn == nil || o.M == 0 {
+			return false
+		}
+		c := P.contracts[o.fn]
+		if c == nil || c.Config == nil {
+			return false
+		}
+		return o.M < c.Config.QLo || o.M > c.Config.QHi
+	}
 	var fns []*ssa.Function
 	for fn, c := range P.contracts {
 		for _, p := range c.Props {
@@ -333,6 +344,11 @@ func runCheck(args []string) {
 				slowUndecided = append(slowUndecided, o.Name)
 				continue
 			}
+			if exploratory(o) && !ok && !*updateBaseline && (o.Status == "timeout" || o.Status == "unknown") {
+				// a configuration only the thorough tier visits: it can refute (sat), a timeout there decides nothing
+				slowUndecided = append(slowUndecided, o.Name)
+				continue
+			}
 			total++
 			if ok {
 				discharged++
@@ -407,6 +423,9 @@ func runCheck(args []string) {
 				continue
 			}
 			if _, slow := base.Slow[o.Name]; slow && (o.Status == "timeout" || o.Status == "unknown") {
+				continue
+			}
+			if exploratory(o) && (o.Status == "timeout" || o.Status == "unknown") {
 				continue
 			}
 			if o.Status == "skipped-slow" {
